@@ -30,6 +30,11 @@ Definition R_local : lbl := 504.                  (* dctx->ddictLocal (owned: ZS
 Definition R_localBuf : lbl := 505.               (* its content copy *)
 Definition R_inBuff : lbl := 506.                 (* dctx->inBuff (+ outBuff): streaming *)
 Definition RF_sizes : flag := 599.                (* inBuffSize / outBuffSize describe R_inBuff *)
+(* single-use prefix (ZSTD_DCtx_refPrefix): the local DDict with dictUses = ZSTD_use_once *)
+Definition RF_once : flag := 598.                 (* dictUses == ZSTD_use_once *)
+Definition RF_used : flag := 597.                 (* dictUses == ZSTD_dont_use while the local DDict still exists (the prefix has served) *)
+Definition RF_taken : flag := 596.                (* the current call took the single-use reference (local variable of the repair) *)
+Definition RF_need : flag := 595.                 (* CALLER: the frame it decodes next was compressed with the prefix it referenced *)
 Definition RD (k : N) : lbl := 700 + 2 * k.       (* the caller's handle of DDict k *)
 Definition RDb (k : N) : lbl := 701 + 2 * k.      (* its content buffer (by copy) *)
 Definition RF_cur (k : N) : flag := 600 + 3 * k.
@@ -39,10 +44,11 @@ Definition RF_bel (k : N) : flag := 602 + 3 * k.
 Definition n_bcreate : N := 90.   Definition n_bfree : N := 91.     Definition n_bref : N := 92.
 Definition n_bsetcreate : N := 93. Definition n_bsetexpand : N := 94. Definition n_bdecomp : N := 95.
 Definition n_breset : N := 96.    Definition n_bddcreate : N := 97. Definition n_bddfree : N := 98.
-Definition n_bload : N := 99.     Definition n_bstream : N := 100.
+Definition n_bload : N := 99.     Definition n_bstream : N := 100.  Definition n_bprefix : N := 101.
 
 Section Borrow.
 Variable fixed : bool.
+Variable pfixed : bool.                             (* finding prefix-used-up-by-failed-frame-start: false = as found, true = b15fdb6 *)
 Variable nd : nat.                                  (* number of DDict handles the caller has *)
 Variables (sz_dctx sz_set sz_table sz_dd : N).
 
@@ -53,7 +59,15 @@ Definition clear_cur : prog := for_ks (fun k => SetFlag (RF_cur k) false).   (* 
 (* ZSTD_clearDict: ZSTD_freeDDict(dctx->ddictLocal); ddictLocal = NULL; ddict = NULL; dictUses = ZSTD_dont_use *)
 Definition bclear_dict : prog :=
   IfNull R_local Skip (Use R_local ;; Free R_localBuf None ;; Free R_local None ;; SetNull R_localBuf ;; SetNull R_local) ;;
+  SetFlag RF_once false ;; SetFlag RF_used false ;;
   clear_cur.
+(* ZSTD_getDDict: dont_use -> ZSTD_clearDict; use_once -> dont_use (the dictionary serves this frame); use_indefinitely -> kept *)
+Definition bgetddict : prog :=
+  SetFlag RF_taken false ;;
+  IfFlag RF_used bclear_dict
+    (IfFlag RF_once (SetFlag RF_once false ;; SetFlag RF_used true ;; SetFlag RF_taken true) Skip).
+(* decoding a frame that was compressed with a prefix without that prefix: an error for its content (corruption_detected) *)
+Definition bneed_prefix : prog := IfFlag RF_need (IfNull R_local (Return false) Skip) Skip.
 Definition clear_in : prog := for_ks (fun k => SetFlag (RF_in k) false).     (* the table is gone *)
 Definition clear_bel : prog := for_ks (fun k => SetFlag (RF_bel k) false).
 (* probing / re-hashing reads the dictID of the entries: every entry may be read *)
@@ -103,8 +117,12 @@ Definition bload (byRef : bool) (sz : N) : prog :=
      else (Alloc R_localBuf false sz ;; IfNull R_localBuf (Free R_local None ;; SetNull R_local ;; Return false) Skip)) ;;
     Return true).
 
+(* ZSTD_DCtx_refPrefix_advanced: ZSTD_DCtx_loadDictionary_advanced(by reference, raw content), then dictUses = ZSTD_use_once *)
+Definition brefprefix : prog :=
+  Call n_bprefix (bload true 0 ;; IfErr (Return false) Skip ;; SetFlag RF_once true ;; Return true).
+
 (* what decoding a frame does with the dictionaries: with a set and no dictionary loaded into the context (the selection replaces
-   a referenced DDict, never a local one: 9260ac3 / a891479), ZSTD_DCtx_selectFrameDDict probes the set (reads the dictID of the
+   a referenced DDict, never a local one: d0ddbff), ZSTD_DCtx_selectFrameDDict probes the set (reads the dictID of the
    entries) and may make an entry the current dictionary; then the current dictionary is read.  (The code selects only when a
    referenced DDict is current; the model lets it select whenever the set exists and nothing is loaded: more behaviours.) *)
 Definition bselect : prog :=
@@ -117,17 +135,24 @@ Definition buse_dict : prog :=
   IfNull R_local Skip (Use R_local) ;; for_ks (fun k => IfFlag (RF_cur k) (Use (RD k)) Skip).
 (* a frame decoded in one call *)
 Definition bdecomp : prog :=
-  Call n_bdecomp (Use R_dctx ;; bselect ;; buse_dict ;; Return true).
+  Call n_bdecomp (Use R_dctx ;; bgetddict ;; bneed_prefix ;; bselect ;; buse_dict ;; Return true).
 (* a frame streamed: the same, then the stream buffer ([n] decides "too small or oversized for too long": 0 = the environment,
    1 = no, anything else = yes; released BEFORE the new one is requested, sizes zeroed first) *)
+(* the frame start of ZSTD_decompressStream (zdss_loadHeader).  As found on 2026-10-02 ZSTD_getDDict took the single-use prefix
+   BEFORE the request for the stream buffer: a failure there left it used up.  Repaired (b15fdb6): a pending single-use dictionary
+   is only looked at ([singleUseDictTaken]) and marked as used right before the stage changes to zdss_read *)
 Definition bbuf_resize (sz : N) : prog :=
   Free R_inBuff None ;; SetFlag RF_sizes false ;; SetNull R_inBuff ;;
   Alloc R_inBuff false sz ;; IfNull R_inBuff (Return false) Skip ;;
   SetFlag RF_sizes true.
 Definition bstream (n sz : N) : prog :=
   Call n_bstream (
-    Use R_dctx ;; bselect ;; buse_dict ;;
+    Use R_dctx ;;
+    (if pfixed then SetFlag RF_taken false ;; IfFlag RF_once (SetFlag RF_taken true) (IfFlag RF_used bclear_dict Skip)
+     else bgetddict) ;;
+    bneed_prefix ;; bselect ;; buse_dict ;;
     IfFlag RF_sizes (match n with 0 => Choice 53 (bbuf_resize sz) Skip | 1 => Skip | _ => bbuf_resize sz end) (bbuf_resize sz) ;;
+    (if pfixed then IfFlag RF_taken (SetFlag RF_once false ;; SetFlag RF_used true) Skip else Skip) ;;
     Use R_inBuff ;;
     Return true).
 
@@ -157,7 +182,7 @@ Definition bdd_free (k : N) : prog :=
 Inductive bop : Type :=
 | BCreate | BFree | BRef (k : N) | BRefObs (k n : N) | BUnref | BDecomp | BResetParams
 | BDDCreate (k : N) (byRef : bool) | BDDFree (k : N)
-| BLoad (byRef : bool) (sz : N) | BStream (n sz : N).
+| BLoad (byRef : bool) (sz : N) | BStream (n sz : N) | BRefPrefix.
 
 Definition bop_prog (o : bop) : prog :=
   match o with
@@ -172,6 +197,7 @@ Definition bop_prog (o : bop) : prog :=
   | BDDFree k => bdd_free k
   | BLoad r sz => bload r sz
   | BStream n sz => bstream n sz
+  | BRefPrefix => brefprefix
   end.
 Definition bapi (o : bop) : prog := Forget ;; Call 0 (bop_prog o).
 
@@ -181,16 +207,20 @@ Definition bapi (o : bop) : prog := Forget ;; Call 0 (bop_prog o).
 Definition bclient (o : bop) : prog :=
   match o with
   | BCreate => IfNull R_dctx (bapi o) Skip
-  | BFree => bapi o ;; SetNull R_dctx ;; clear_bel
-  | BRef k | BRefObs k _ => IfNull R_dctx Skip (IfNull (RD k) Skip (bapi o ;; IfErr Skip (SetFlag (RF_bel k) true)))
-  | BUnref | BDecomp | BLoad _ _ | BStream _ _ => IfNull R_dctx Skip (bapi o)
-  | BResetParams => IfNull R_dctx Skip (bapi o ;; clear_bel)
+  | BFree => bapi o ;; SetNull R_dctx ;; clear_bel ;; SetFlag RF_need false
+  | BRef k | BRefObs k _ => IfNull R_dctx Skip (IfNull (RD k) Skip (SetFlag RF_need false ;; bapi o ;; IfErr Skip (SetFlag (RF_bel k) true)))
+  | BUnref | BLoad _ _ => IfNull R_dctx Skip (SetFlag RF_need false ;; bapi o)
+  (* a frame: when it completes, the prefix the caller referenced for it has served *)
+  | BDecomp | BStream _ _ => IfNull R_dctx Skip (bapi o ;; IfErr Skip (SetFlag RF_need false))
+  | BResetParams => IfNull R_dctx Skip (SetFlag RF_need false ;; bapi o ;; clear_bel)
+  (* the caller references a prefix for the next frame: that frame was compressed with it *)
+  | BRefPrefix => IfNull R_dctx Skip (SetFlag RF_need false ;; bapi o ;; IfErr Skip (SetFlag RF_need true))
   | BDDCreate k _ => IfNull (RD k) (bapi o) Skip
   | BDDFree k => IfFlag (RF_bel k) Skip (bapi o ;; SetNull (RD k))
   end.
 Definition bteardown : prog := bclient BFree ;; for_ks (fun k => bclient (BDDFree k)).
 Definition breps : list bop :=
-  [BCreate; BFree; BUnref; BDecomp; BResetParams; BLoad false 0; BLoad true 0; BStream 0 0; BStream 1 0; BStream 2 0]
+  [BCreate; BFree; BUnref; BDecomp; BResetParams; BLoad false 0; BLoad true 0; BStream 0 0; BStream 1 0; BStream 2 0; BRefPrefix]
   ++ flat_map (fun k => [BRef k; BDDCreate k false; BDDCreate k true; BDDFree k]) ks.
 
 (* the scenario interpreter of the tie: the API calls a run of harness/c13_fault.c made, as (code, parameters); the caller's
@@ -206,6 +236,7 @@ Definition bop_of_code (code : N) (ps : list N) : bop :=
   | 7 => BDDFree (nth 0 ps 0)
   | 8 => BLoad (negb (nth 0 ps 0 =? 0)) (nth 1 ps 0)
   | 9 => BStream (nth 0 ps 0) (nth 1 ps 0)
+  | 10 => BRefPrefix
   | _ => BUnref
   end.
 Fixpoint bops_prog (ops : list bop) : prog :=
